@@ -1,0 +1,84 @@
+//! Verification facade, compiled only with the cargo feature `getong_stateright_verif`.
+//!
+//! Gives external verification harnesses (the Kani and replay crates under `/verif`) access to
+//! crate-private operations. It adds no behaviour: every function forwards to the private item.
+
+use crate::actor::{Envelope, Network};
+use crate::job_market::JobBroker;
+use crate::{Fingerprint, Model, Path};
+use std::collections::VecDeque;
+use std::hash::Hash;
+
+/// Forwards to the crate-private `Network::send`.
+pub fn network_send<Msg: Eq + Hash>(network: &mut Network<Msg>, envelope: Envelope<Msg>) {
+    network.send(envelope)
+}
+
+/// Forwards to the crate-private `Network::on_deliver`.
+pub fn network_on_deliver<Msg: Eq + Hash>(network: &mut Network<Msg>, envelope: Envelope<Msg>) {
+    network.on_deliver(envelope)
+}
+
+/// Forwards to the crate-private `Network::on_drop`.
+pub fn network_on_drop<Msg: Eq + Hash>(network: &mut Network<Msg>, envelope: Envelope<Msg>) {
+    network.on_drop(envelope)
+}
+
+/// Forwards to the crate-private `Path::from_fingerprints`.
+pub fn path_from_fingerprints<M>(
+    model: &M,
+    fingerprints: VecDeque<Fingerprint>,
+) -> Path<M::State, M::Action>
+where
+    M: Model,
+    M::State: Hash,
+{
+    Path::from_fingerprints(model, fingerprints)
+}
+
+/// Forwards to the crate-private `Path::final_state`.
+pub fn path_final_state<M>(model: &M, fingerprints: VecDeque<Fingerprint>) -> Option<M::State>
+where
+    M: Model,
+    M::State: Hash,
+{
+    Path::<M::State, M::Action>::final_state(model, fingerprints)
+}
+
+/// A stable hasher as used for fingerprints.
+pub fn stable_hasher() -> impl std::hash::Hasher {
+    crate::stable::hasher()
+}
+
+/// Public wrapper around the crate-private `JobBroker`.
+pub struct Broker<Job>(JobBroker<Job>);
+
+impl<Job: Send + 'static> Broker<Job> {
+    /// Forwards to `JobBroker::new`.
+    pub fn new(thread_count: usize) -> Self {
+        Broker(JobBroker::new(thread_count, None))
+    }
+}
+
+impl<Job> Broker<Job> {
+    /// Forwards to `JobBroker::pop`.
+    pub fn pop(&mut self) -> VecDeque<Job> {
+        self.0.pop()
+    }
+    /// Forwards to `JobBroker::push`.
+    pub fn push(&mut self, jobs: VecDeque<Job>) {
+        self.0.push(jobs)
+    }
+    /// Forwards to `JobBroker::split_and_push`.
+    pub fn split_and_push(&mut self, jobs: &mut VecDeque<Job>) {
+        self.0.split_and_push(jobs)
+    }
+    /// Forwards to `JobBroker::is_closed`.
+    pub fn is_closed(&self) -> bool {
+        self.0.is_closed()
+    }
+    /// Forwards to `Clone for JobBroker`.
+    pub fn share(&self) -> Self {
+        Broker(self.0.clone())
+    }
+}
